@@ -349,6 +349,64 @@ def translate_site(name, spec, trees):
     return res
 
 
+def qobjevo_call_terms(repo):
+    """QobjEvo.__call__ (Cython): the three statements that compute the
+    isherm flag of the evaluated operator.  Read by text (the .pyx is not
+    Python), reduced to Python expressions by dropping `cdef bint` and the
+    `<bint>` cast (None -> False, True -> True), then translated like the
+    others.  Any other shape of these statements fails closed."""
+    import re
+    src = open(os.path.join(repo, "qutip/core/cy/qobjevo.pyx")).read()
+    m = re.search(r"    def __call__\(self.*?\n    cpdef ", src, flags=re.S)
+    if not m:
+        raise Unsupported("QobjEvo.__call__ not found")
+    body = m.group(0)
+    lines = [l.strip() for l in body.split("\n") if "isherm" in l and not l.strip().startswith("#")]
+    want_shape = [r"^cdef bint isherm = (.+)$", r"^isherm &= (.+)$",
+                  r"^return Qobj\(out, dims=self\._dims, copy=False, isherm=(.+)\)$"]
+    if len(lines) != 3:
+        raise Unsupported("QobjEvo.__call__: expected 3 isherm statements, found %r" % lines)
+    exprs = []
+    for l, pat in zip(lines, want_shape):
+        mm = re.match(pat, l)
+        if not mm:
+            raise Unsupported("QobjEvo.__call__: unexpected statement %r" % l)
+        exprs.append(mm.group(1))
+    if "out = _data.add(out, obj.data, coeff)" not in body or \
+            "cdef Data out = _data.mul(obj.data, coeff)" not in body:
+        raise Unsupported("QobjEvo.__call__: data accumulation changed")
+    atoms = {"obj._isherm": "fb_h e", "isherm": "fa_h e"}
+
+    def trb(src_expr):
+        e = src_expr.replace("<bint> ", "BINT__")
+        node = ast.parse(e, mode="eval").body
+        return trq(node)
+
+    def trq(node):
+        s = ast.unparse(node)
+        if s == "BINT__obj._isherm":
+            return "(PBool (truthy (fb_h e)))"       # <bint> None == False
+        if s == "coeff.imag == 0":
+            return "(PBool (p_real e))"
+        if s == "isherm":
+            return "(fa_h e)"
+        if s == "None":
+            return "PNone"
+        if isinstance(node, ast.BoolOp):
+            op = "py_and" if isinstance(node.op, ast.And) else "py_or"
+            vals = [trq(v) for v in node.values]
+            out = vals[0]
+            for v in vals[1:]:
+                out = "(%s %s %s)" % (op, out, v)
+            return out
+        raise Unsupported("QobjEvo.__call__: expression outside the subset: %r" % s)
+    init = trb(exprs[0])
+    # `a &= b` on bint: bitwise and of two booleans
+    step = "(py_and (fa_h e) %s)" % trb(exprs[1])
+    final = trb(exprs[2])
+    return init, step, final
+
+
 def generate(repo=None, out=None):
     repo = repo or vlib.REPO
     out = out or os.path.join(vlib.COQ, "Gen", "C03_flags.v")
@@ -380,6 +438,13 @@ def generate(repo=None, out=None):
         if r["guard"] is not None:
             lines.append("Definition %s_shortcut_guard (e : fenv) : pyval := %s." % (name, r["guard"]))
         lines.append("")
+    qi, qs, qf = qobjevo_call_terms(repo)
+    lines.append("(* QobjEvo.__call__ (qobjevo.pyx): first term, each further term, final flag *)")
+    lines.append("Definition qevo_init_herm (e : fenv) : pyval := %s." % qi)
+    lines.append("Definition qevo_step_herm (e : fenv) : pyval := %s." % qs)
+    lines.append("Definition qevo_final_herm (e : fenv) : pyval := %s." % qf)
+    lines.append("")
+    sites["qobjevo_call"] = {"init": qi, "step": qs, "final": qf}
     os.makedirs(os.path.dirname(out), exist_ok=True)
     with open(out, "w") as f:
         f.write("\n".join(lines))
